@@ -295,3 +295,67 @@ def ids_of(ctx, fi, stmts):
     for st in stmts:
         s.update(cfg.node_ids_for(st))
     return s
+
+
+def reaching_def(ctx, fi, name, at_node):
+    """The unique `name = expr` assignment reaching the statement that contains at_node, or None."""
+    cfg = ctx.cfg(fi)
+    try:
+        use_st = ctx.stmt_of(fi, at_node)
+    except Exception:
+        return None
+    use_ids = cfg.node_ids_for(use_st)
+    defs = []
+    for n in cfg.stmt_nodes():
+        a = n.ast
+        if isinstance(a, ast.Assign) and len(a.targets) == 1 and isinstance(a.targets[0], ast.Name) and a.targets[0].id == name:
+            defs.append(n)
+    if not defs or name in fi.params:
+        return None
+    other_binders = []
+    from ..cfg import _killed_names
+    for n in cfg.stmt_nodes():
+        if n not in defs and name in _killed_names(n):
+            other_binders.append(n)
+    best = None
+    for uid in use_ids:
+        cands = []
+        for d in defs:
+            if d.id == uid:
+                continue
+            # d reaches use without passing another binder of name
+            blockers = {x.id for x in defs + other_binders if x.id != d.id}
+            if cfg.path(d.id, {uid}, blocked=blockers - {uid}, kinds="nx", from_successors=True) is not None:
+                cands.append(d)
+        # is there a path from entry to use avoiding all defs (uninitialised / other binder)?
+        if len(cands) != 1:
+            return None
+        if best is not None and best is not cands[0]:
+            return None
+        best = cands[0]
+    return best.ast.value if best is not None else None
+
+
+def inline_at(ctx, fi, expr, at_node, depth=4):
+    """Inline names by their unique reaching definition at at_node (falls back to the single-assignment env)."""
+    import copy as _copy
+    env = ctx.env(fi)
+
+    class T(ast.NodeTransformer):
+        def __init__(self, d):
+            self.d = d
+
+        def visit_Name(self, node):
+            if not isinstance(node.ctx, ast.Load) or self.d <= 0:
+                return node
+            if node.id in env:
+                return T(self.d - 1).visit(_copy.deepcopy(env[node.id]))
+            v = reaching_def(ctx, fi, node.id, at_node)
+            if v is not None:
+                return T(self.d - 1).visit(_copy.deepcopy(v))
+            return node
+
+        def visit_Lambda(self, node):
+            return node
+
+    return T(depth).visit(_copy.deepcopy(expr))
